@@ -505,6 +505,10 @@ void scan_deps(const std::string& orig_portname, std::string cur_portname,
                 {
                     if(*enabled_by==',')
                         ++enabled_by;
+                    // rDepends(a,b) is stored as "a,b,": nothing follows
+                    // the last comma
+                    if(!*enabled_by)
+                        break;
                     std::string abs = rel2abs(enabled_by, cur_portname);
                     auto itr = message_map.find(abs);
                     if(itr != message_map.end())  // port is in the savefile
